@@ -25,6 +25,9 @@ type State struct {
 	// Priv: for a private local (an allocation whose address never escapes), the heap version
 	// right after the last store to it; loads read that version, whatever was written elsewhere since
 	Priv map[*ssa.Alloc][2]T
+	// PrivVals: the leaves last stored into a private local, by slot (store-to-load forwarding: a load of slots that
+	// were all stored at literal offsets returns the stored terms themselves instead of a select over the store chain)
+	PrivVals map[*ssa.Alloc]map[int64]T
 }
 
 func (s *State) clone() *State {
@@ -32,6 +35,14 @@ func (s *State) clone() *State {
 	c.Priv = make(map[*ssa.Alloc][2]T, len(s.Priv))
 	for k, v := range s.Priv {
 		c.Priv[k] = v
+	}
+	c.PrivVals = make(map[*ssa.Alloc]map[int64]T, len(s.PrivVals))
+	for k, m := range s.PrivVals {
+		m2 := make(map[int64]T, len(m))
+		for o, t := range m {
+			m2[o] = t
+		}
+		c.PrivVals[k] = m2
 	}
 	return &c
 }
@@ -309,8 +320,17 @@ func (fx *FX) oblige(kind, label string, guard, goal T, pos token.Pos, src strin
 			guard = and(guard, fx.domainAll)
 		}
 	}
-	if goal.S == "true" || guard.S == "false" {
+	if guard.S == "false" {
 		return
+	}
+	if goal.S == "true" {
+		// a property-carrying clause that evaluates to true outright (e.g. `r == cfg.Raw` when the returned term is
+		// that very term) is still recorded, discharged by evaluation, so that the obligation lock can see it
+		switch kind {
+		case "post", "assert", "inv-entry", "inv-pres", "variant", "bound", "lemma":
+		default:
+			return
+		}
 	}
 	key := kind
 	if label != "" {
@@ -320,6 +340,11 @@ func (fx *FX) oblige(kind, label string, guard, goal T, pos token.Pos, src strin
 	name := fmt.Sprintf("%s.%s/%s", fx.u.Name, fx.name, key)
 	if fx.kindN[key] > 1 || !strings.HasPrefix(kind, "post") && !strings.HasPrefix(kind, "lemma") {
 		name += fmt.Sprintf("#%d", fx.kindN[key])
+	}
+	if goal.S == "true" {
+		fx.obls = append(fx.obls, &Obligation{Name: name, Kind: kind, Func: fx.name, Unit: fx.u.Name, Prefix: len(fx.lines), Guard: guard, Goal: goal, Extra: tTrue,
+			Pos: fx.pos(pos), Src: src, fx: fx, Block: fx.curBlock, Trivial: true})
+		return
 	}
 	li := fx.inLoop[fx.curBlock]
 	cases := []struct {
@@ -802,7 +827,7 @@ func (fx *FX) run() {
 	fx.assertsSeen = map[string]bool{}
 
 	// entry state
-	st := &State{PC: tTrue, Priv: map[*ssa.Alloc][2]T{}}
+	st := &State{PC: tTrue, Priv: map[*ssa.Alloc][2]T{}, PrivVals: map[*ssa.Alloc]map[int64]T{}}
 	st.H = fx.fresh("H0", SHeap)
 	st.Hs = fx.fresh("Hs0", SSHeap)
 	st.Alloc = fx.fresh("alloc0", SSet)
@@ -1261,6 +1286,16 @@ func (fx *FX) mergeStates(conds []T, sts []*State) *State {
 			}
 		}
 	}
+	for a, m := range res.PrivVals {
+		for off, t := range m {
+			for _, o := range sts {
+				if ot, ok := o.PrivVals[a][off]; !ok || ot != t {
+					delete(m, off)
+					break
+				}
+			}
+		}
+	}
 	return res
 }
 
@@ -1444,6 +1479,7 @@ func (fx *FX) enterLoop(li *loopInfo, h *ssa.BasicBlock, conds []T, sts []*State
 		}
 	}
 	st.Priv = map[*ssa.Alloc][2]T{}
+	st.PrivVals = map[*ssa.Alloc]map[int64]T{}
 	li.st = st
 	fx.curBlock = h
 	env := fx.loopEnv(li, st, func(phi *ssa.Phi) Val { return fx.vals[phi] }, phis)
@@ -1868,4 +1904,42 @@ func (e *Env) lookup(name string) (Val, bool) {
 		return fx.val(g), true
 	}
 	return nil, false
+}
+
+// privStore records the leaves stored into a private local at a literal offset (or forgets the local).
+func (fx *FX) privStore(st *State, a *ssa.Alloc, off T, ts []T) {
+	if st.PrivVals == nil {
+		st.PrivVals = map[*ssa.Alloc]map[int64]T{}
+	}
+	o, lit := isLit(off)
+	if !lit {
+		delete(st.PrivVals, a)
+		return
+	}
+	m := st.PrivVals[a]
+	if m == nil {
+		m = map[int64]T{}
+		st.PrivVals[a] = m
+	}
+	for i, t := range ts {
+		m[o+int64(i)] = t
+	}
+}
+
+// privLoad returns the forwarded leaves of a load from a private local, if every slot is known.
+func (fx *FX) privLoad(st *State, a *ssa.Alloc, off T, n int) ([]T, bool) {
+	o, lit := isLit(off)
+	m := st.PrivVals[a]
+	if !lit || m == nil {
+		return nil, false
+	}
+	ts := make([]T, n)
+	for i := 0; i < n; i++ {
+		t, ok := m[o+int64(i)]
+		if !ok {
+			return nil, false
+		}
+		ts[i] = t
+	}
+	return ts, true
 }
